@@ -20,7 +20,8 @@ ASSUMPTIONS = ['no faults are injected into testSetUp/testTearDown themselves (a
 
 def gen(seed):
     rng = random.Random(seed)
-    p = W.profile(p_hook=0.8, p_deco_skip=0.12, p_deco_xfail=0.1, p_subtests=0.15)
+    p = W.profile(p_hook=0.8, p_deco_skip=0.12, p_deco_xfail=0.1, p_subtests=0.15,
+                  p_doctest=0.2)
     world = W.gen_world(rng, p)
     m = W.Model(world)
     disc = m.discover()
